@@ -600,9 +600,11 @@ def add_shadow(rng, callables):
     return sig
 
 
-def add_clash(rng, callables, enums, consts):
+def add_clash(rng, callables, enums, consts, same=True):
     """the cross-kind family: a CONSTANT (or an ENUMERATION) named like a function.  Functions (`::f()`), constants (`f`)
-    and enumerations (`f::x`) are told apart by the syntax of the reference; the caller uses both."""
+    and enumerations (`f::x`) are told apart by the syntax of the reference; the caller uses both.
+    same=False: the two names differ in LETTER CASE only (function `fn3`, constant `FN3` / `Fn3`): different names, no
+    clash at all - an ordinary case with the ordinary signatures."""
     r = rng
     targets = [c for c in callables if c['kind'] == 'function' and c['ret'] == 'integer' and not c.get('recursive')]
     if not targets:
@@ -613,17 +615,18 @@ def add_clash(rng, callables, enums, consts):
         lit = {'integer': ['int', r.choice([0, 1, 2])], 'string': ['str', r.choice(G.STRINGS)], 'boolean': ['bool', r.random() < 0.5]}[t]
         args.append([n, lit])
     call = ['callf', c['name'], args]
+    twin = c['name'] if same else r.choice([c['name'].upper(), c['name'].capitalize()])
     if r.random() < 0.5 or not enums:
-        consts.append((c['name'], 'integer', '7'))
-        other = ['var', c['name']]
+        consts.append((twin, 'integer', '7'))
+        other = ['var', twin]
         what = 'constant'
     else:
         names = list(enums[0][1])
-        enums.append((c['name'], names))
-        other = ['enum', c['name'], names[-1]]
+        enums.append((twin, names))
+        other = ['enum', twin, names[-1]]
         what = 'enumeration'
     body = [['assign', 'v1', call], ['return', ['bin', '+', ['var', 'v1'], other]]]
-    sig = _sig('function', 'clash', None, [], 'integer', c['pure'])
+    sig = _sig('function', 'clash' if same else 'casepair', None, [], 'integer', c['pure'])
     sig.update(recursive=False, level=1 + max(x['level'] for x in callables), body=body, text=G.render(body), clash=what)
     return sig
 
@@ -653,6 +656,12 @@ def generate(ctx):
                 callables.append(cl)
                 entries = [['fn', 'clash', {}]]
                 family = 'clash'
+        if i % 50 == 37:
+            cp = add_clash(r.fork('casepair'), callables, enums, consts, same=False)
+            if cp is not None:
+                callables.append(cp)
+                entries = [['fn', 'casepair', {}]] + entries[:2]
+                family = 'casepair'
         if not entries:
             continue
         ctx.count('generated')
@@ -727,13 +736,29 @@ def run_impl(case):
     if case.get('family') in ('shadow', 'clash'):
         # the families whose failure has a name of its own
         fam = case['family']
+        other = None
         try:
             v = domain.find_symbol(fam)()
             err = None
         except (TypeError, AttributeError) as ex:
             v, err = None, '%s: %s' % (type(ex).__name__, ex)
+            if fam == 'clash' and not (isinstance(ex, TypeError) and 'not callable' in str(ex)):
+                other = ex
+        except Exception as ex:
+            v, err, other = None, None, ex
         finally:
             _CALLS = None
+        if other is not None or (fam == 'clash' and err is None):
+            # not the clash itself (the hidden function was invoked, or something else went wrong): the ordinary
+            # judgement with the ordinary signatures
+            raised = None
+            values = [v]
+            if other is not None:
+                raised = (0, '%s: %s' % (type(other).__name__, str(other)[:200]))
+                values = [_Raised(type(other).__name__)]
+            r = _judge(case, canon_impl(domain, values), calls, raised)
+            r.setdefault('stats', {})['family_' + fam] = 1
+            return r
         obs = canon_impl(domain, [v])
         fails = []
         exp = case.get('expect')
